@@ -128,3 +128,20 @@ PROPS["C42"] = dict(
     outside="that record_received passes the right `now`/num_beyond_k and is the only store path (Behaviour state is hash maps); MemoryStore expiry handling (C41); provider records",
     stubs=[TRACING, WEBTIME], assumptions=["clock readings are non-decreasing u64 nanoseconds (shim); property is translation invariant"], hooks=[KADHOOK],
 )
+
+PROPS["C37"] = dict(
+    group="kad", files=["c37.rs"],
+    explanation=(
+        "One inductive step on the real KBucket<KeyBytes,u8> with the real Entry dispatch: the bucket is placed in an "
+        "ARBITRARY valid state (n nodes with symbolic distinct keys, symbolic first_connected_pos, optional pending "
+        "entry with symbolic key/status/deadline; symbolic clock and pending timeout), then one operation as "
+        "KBucketsTable::entry performs it on the selected bucket (apply_pending, then Present/Pending/Absent dispatch: "
+        "insert / status update / remove / plain access) with a symbolic key and status. The complete post-state "
+        "(order, statuses, pending entry, applied-pending report, outcome) is compared with a reference model written "
+        "from KBucket's documentation; capacity, key uniqueness, pending-key exclusion and the "
+        "disconnected-before-connected representation invariant are asserted. The arbitrary pre-state makes the step "
+        "cover operation histories of any length within the shape bounds."),
+    bounds="bucket capacity 2 (quick) / 3 (thorough); pre-state node count concrete per instance (0..=cap); keys differ in their last byte only (8 values); one operation per harness; clock secs < 2^40, timeout < 2^20 s; unwind 34",
+    outside="KBucketsTable::entry's bucket selection and per-bucket application of pending entries (the 256-bucket table cannot be built under CBMC: KBucketsTable::new alone runs out of memory; the index function is decided under C40); bucket capacities > 3 (K_VALUE = 20 in production); local-key exclusion (entry() returns None for distance 0)",
+    stubs=[TRACING, WEBTIME], assumptions=[NOSHA, FORGET, "pre-state restricted to the representation invariant: distinct keys, first_connected_pos < len, pending key not stored, node list allocated with the bucket capacity (as KBucket::new does)"], hooks=[KADHOOK],
+)
